@@ -864,6 +864,11 @@ func (p *context) callEx(b llssa.Builder, act llssa.DoAction, call *ssa.CallComm
 			arg := args[0]
 			ret = p.compileValue(b, arg)
 			return
+		} else if fn == "ssa:deferstack" && act == llssa.Call && !p.functionHasExplicitStackDeferInAnon(p.goFn) {
+			// Every defer of the range-over-func bodies was unreachable and has been
+			// removed together with the RunDefers that would pop a defer frame: push none.
+			ret = b.Prog.Nil(b.Prog.VoidPtr())
+			return
 		} else if fn == "Offsetof" && act == llssa.Call {
 			if offset, ok := p.offsetOfBuiltinArg(args[0]); ok {
 				ret = offset
